@@ -172,6 +172,29 @@ def ev(t, env, W):
             db = DIGIT_BITS[DIGIT[b.adt]]
             return ("arr", tuple(PI(DIGIT[b.adt], (b.v >> (db * i)) & ((1 << db) - 1)) for i in range(W.n)))
         return OPAQUE
+    if k == "WITH":
+        b = ev(t[1], env, W)
+        v = ev(t[3], env, W)
+        if isinstance(b, BN) and b.adt in UNSIGNED and t[2] == "digits" and isinstance(v, tuple) and v and v[0] == "arr":
+            db = DIGIT_BITS[DIGIT[b.adt]]
+            tot = 0
+            for i, d in enumerate(v[1]):
+                if not isinstance(d, PI):
+                    return OPAQUE
+                tot |= (d.v & ((1 << db) - 1)) << (db * i)
+            return W.wrap(b.adt, tot)
+        if isinstance(b, BN) and b.adt in SIGNED and t[2] == "bits" and isinstance(v, BN):
+            return W.wrap(b.adt, v.v)
+        return OPAQUE
+    if k == "WIX":
+        b = ev(t[1], env, W)
+        i = ev(t[2], env, W)
+        v = ev(t[3], env, W)
+        if isinstance(b, tuple) and b and b[0] == "arr" and isinstance(i, PI) and 0 <= i.v < len(b[1]) and v is not OPAQUE:
+            lst = list(b[1])
+            lst[i.v] = v
+            return ("arr", tuple(lst))
+        return OPAQUE
     if k == "IX":
         b = ev(t[1], env, W)
         i = ev(t[2], env, W)
@@ -180,6 +203,12 @@ def ev(t, env, W):
         return OPAQUE
     if k == "CT":
         adt = t[1]
+        if adt in UNSIGNED and len(t[3]) == 1:
+            v = ev(t[3][0], env, W)
+            if isinstance(v, tuple) and v and v[0] == "arr" and all(isinstance(d, PI) for d in v[1]):
+                db = DIGIT_BITS[DIGIT[adt]]
+                return W.wrap(adt, sum((d.v & ((1 << db) - 1)) << (db * i) for i, d in enumerate(v[1])))
+            return OPAQUE
         if adt in SIGNED and len(t[3]) == 1:
             b = ev(t[3][0], env, W)
             if isinstance(b, BN):
@@ -196,6 +225,13 @@ def ev(t, env, W):
         return OPAQUE
     if k == "TU":
         return ("tuple", tuple(ev(x, env, W) for x in t[1]))
+    if k == "RP":
+        v = ev(t[1], env, W)
+        if t[2] == "N" and v is not OPAQUE:
+            return ("arr", tuple(v for _ in range(W.n)))
+        return OPAQUE
+    if k == "AR":
+        return ("arr", tuple(ev(x, env, W) for x in t[1]))
     if k == "D":
         b = ev(t[1], env, W)
         if isinstance(b, int) and not isinstance(b, bool):
@@ -228,6 +264,8 @@ def ev(t, env, W):
             return not b
         if t[1] == "Neg" and isinstance(b, PI):
             return _wrap_prim(b.ty, -b.v)
+        if t[1] == "Not" and isinstance(b, PI):
+            return _wrap_prim(b.ty, ~b.v)
         return OPAQUE
     if k == "B":
         a, b = ev(t[2], env, W), ev(t[3], env, W)
@@ -533,3 +571,29 @@ def outcome(tree, env, W):
         except PanicReached as e:
             return ("panic", e.cls), path + [(("S", "in " + e.where), e.cls)]
     return ("unknown", leaf[1]), path
+
+
+def apply_effects(leaf, env, W):
+    """value of *param0 after the stores recorded on a RET leaf (or OPAQUE)"""
+    cur = env.get(0, OPAQUE)
+    for e in leaf[2]:
+        if e[0] != "store":
+            return OPAQUE
+        tgt, val = e[1], e[2]
+        env2 = dict(env)
+        env2[0] = cur
+        v = ev(val, env2, W)
+        if tgt == ("P", 0):
+            cur = v
+            continue
+        # store into one digit of an unsigned value: p0.digits[i] := v
+        if tgt[0] == "IX" and tgt[1] == ("F", ("P", 0), "digits") and isinstance(cur, BN) and cur.adt in UNSIGNED:
+            i = ev(tgt[2], env2, W)
+            if not isinstance(i, PI) or not isinstance(v, PI) or not (0 <= i.v < W.n):
+                return OPAQUE
+            db = DIGIT_BITS[DIGIT[cur.adt]]
+            m = ((1 << db) - 1) << (db * i.v)
+            cur = W.wrap(cur.adt, (cur.v & ~m) | ((v.v & ((1 << db) - 1)) << (db * i.v)))
+            continue
+        return OPAQUE
+    return cur
